@@ -94,6 +94,51 @@ def case(job):
     return evs, facts
 
 
+def real_case(job):
+    """the same on a real git repository: what `git log` / `git tag` / `git show` report afterwards"""
+    import re
+    import subprocess as sp
+    seed = job
+    rng = random.Random(seed)
+    genv = dict(GIT_AUTHOR_NAME="t", GIT_AUTHOR_EMAIL="t@e", GIT_COMMITTER_NAME="t", GIT_COMMITTER_EMAIL="t@e", GIT_CONFIG_GLOBAL="/dev/null", GIT_CONFIG_SYSTEM="/dev/null")
+
+    def git(cwd, *args):
+        return sp.run(["git"] + list(args), cwd=cwd, stdout=sp.PIPE, stderr=sp.PIPE, check=True, env=dict(os.environ, **genv)).stdout.decode("utf-8")
+
+    def clean(t):       # git tidies messages (trailing blanks, blank lines, '#' lines under some modes): keep the sample clear of that
+        t = re.sub(r"\s+", " ", t).strip()
+        return ("m" + t) if (not t or t.startswith("#")) else t
+    cli_c, cli_t = rng.random() < 0.5, rng.random() < 0.5
+    tc, tt = clean(gen_template(rng, cli_c)), clean(gen_template(rng, cli_t))
+    names = [n for n in (gen_name(rng, i) for i in range(rng.randrange(1, 4)))]
+    with drive.scratch_dir("c12r") as d:
+        root = os.path.join(d, "p")
+        os.makedirs(root)
+        git(root, "init", "-q", "-b", "main")
+        proj = project.Project(root, vcs=None)
+        extra = {}
+        if not cli_c:
+            extra["commit_message"] = tc
+        if not cli_t:
+            extra["tag_message"] = tt
+        proj.write("bumpver.toml", project.bumpver_toml(OLD, VP, [(n, ["{version}"]) for n in names], commit=True, tag=True, push=False, extra=extra))
+        for n in names:
+            proj.write(n, "version %s\n" % OLD)
+        git(root, "add", "-A"); git(root, "commit", "-q", "-m", "init")
+        args = ["update", "--patch", "--no-fetch"] + (["--commit-message", tc] if cli_c else []) + (["--tag-message", tt] if cli_t else [])
+        r = drive.cli(args, cwd=root, env=genv)
+        evs = []
+        kw = dict(old=glue.cp(OLD), new=glue.cp(NEW), oldpep=glue.cp("1.2.3b0"), newpep=glue.cp("1.2.4b0"))
+        committed = []
+        if r.exit == 0:
+            cm = git(root, "log", "-1", "--format=%B")
+            tm = git(root, "tag", "-l", "--format=%(contents)", NEW)
+            committed = [x for x in git(root, "show", "--name-only", "--format=", "-z", "HEAD").split("\0") if x.strip("\n")]
+            evs.append(dict(ev="msg", template=glue.cp(tc), cli=cli_c, kw=kw, message=glue.cp(cm.rstrip("\n")), dbg="REAL GIT commit message tmpl(%s)=%r got %r" % ("cli" if cli_c else "cfg", tc, cm)))
+            evs.append(dict(ev="msg", template=glue.cp(tt), cli=cli_t, kw=kw, message=glue.cp(tm.rstrip("\n")), dbg="REAL GIT tag message tmpl(%s)=%r got %r" % ("cli" if cli_t else "cfg", tt, tm)))
+    return evs, dict(seed=seed, exit=r.exit, exc=r.exc or "", names=names, committed=committed, tc=tc, tt=tt)
+
+
 def run(ctx):
     drive.setup(hooks=False)
     n_design = ctx.pick(3, 4)
@@ -108,6 +153,12 @@ def run(ctx):
     events = []
     for evs, f in results:
         events += evs
+    real = drive.pmap(real_case, [ctx.seed * 12000029 + i for i in range(ctx.pick(30, 600))], hooks=False, chunksize=2)
+    for evs, f in real:
+        events += evs
+        if f["exit"] == 0 and sorted(c.strip("\n") for c in f["committed"]) != sorted(f["names"] + ["bumpver.toml"]):
+            ctx.violation(dict(clause="argv:committed-paths-differ-from-configured (real git)"), case=f)
+    ctx.count("real_git_runs", len(real))
     for i, e in enumerate(events):
         e["id"] = i + 1
     fails, st = tlc.validate_events("Trace_Update", [{k: v for k, v in e.items() if k not in ("dbg", "expect_path_in")} for e in events], name="C12")
